@@ -47,6 +47,8 @@ namespace bluetoe {
             idle,
             pairing_completed,
             user_response_wait,
+            // the DHKey check of the central was received and verified, while waiting for the user
+            user_response_wait_dhkey_checked,
             user_response_failed,
             user_response_success,
             // legacy only
@@ -239,11 +241,26 @@ namespace bluetoe {
 
             void yes_no_response( bool response ) override
             {
-                assert( this->state() == details::sm_pairing_state::user_response_wait );
+                if ( this->state() == details::sm_pairing_state::user_response_wait )
+                {
+                    // the DHKey check of the central is still missing: keep waiting for it
+                    this->state( response
+                        ? details::sm_pairing_state::lesc_pairing_random_exchanged
+                        : details::sm_pairing_state::user_response_failed );
+                }
+                else if ( this->state() == details::sm_pairing_state::user_response_wait_dhkey_checked )
+                {
+                    this->state( response
+                        ? details::sm_pairing_state::user_response_success
+                        : details::sm_pairing_state::user_response_failed );
+                }
+                // otherwise, the pairing was aborted by the peer while the user was asked
+            }
 
-                this->state( response
-                    ? details::sm_pairing_state::user_response_success
-                    : details::sm_pairing_state::user_response_failed );
+            void dhkey_checked_while_waiting_for_user_response()
+            {
+                assert( this->state() == details::sm_pairing_state::user_response_wait );
+                this->state( details::sm_pairing_state::user_response_wait_dhkey_checked );
             }
 
             device_pairing_status local_device_pairing_status() const
@@ -379,11 +396,26 @@ namespace bluetoe {
 
             void yes_no_response( bool response ) override
             {
-                assert( this->state() == details::sm_pairing_state::user_response_wait );
+                if ( this->state() == details::sm_pairing_state::user_response_wait )
+                {
+                    // the DHKey check of the central is still missing: keep waiting for it
+                    this->state( response
+                        ? details::sm_pairing_state::lesc_pairing_random_exchanged
+                        : details::sm_pairing_state::user_response_failed );
+                }
+                else if ( this->state() == details::sm_pairing_state::user_response_wait_dhkey_checked )
+                {
+                    this->state( response
+                        ? details::sm_pairing_state::user_response_success
+                        : details::sm_pairing_state::user_response_failed );
+                }
+                // otherwise, the pairing was aborted by the peer while the user was asked
+            }
 
-                this->state( response
-                    ? details::sm_pairing_state::user_response_success
-                    : details::sm_pairing_state::user_response_failed );
+            void dhkey_checked_while_waiting_for_user_response()
+            {
+                assert( this->state() == details::sm_pairing_state::user_response_wait );
+                this->state( details::sm_pairing_state::user_response_wait_dhkey_checked );
             }
 
             void pairing_algorithm( details::legacy_pairing_algorithm algo )
